@@ -269,6 +269,14 @@ func (w WALBatch) replay(fs *fileStore) error {
 		if row.LSN > fs._nextLSN {
 			fs._nextLSN = row.LSN
 		}
+		// likewise the row-id counter: the id an insert record names is in
+		// use whether or not the record has to be redone (a flush can die
+		// between its page writes and the header write). counting one id
+		// per record would fall behind the ids that refused inserts
+		// consumed before the crash.
+		if row.WALOp == OpInsert && row.cellID > fs.lastKey {
+			fs.lastKey = row.cellID
+		}
 		node, err := fs.fetch(row.pageID)
 		if err != nil {
 			return err
@@ -285,13 +293,6 @@ func (w WALBatch) replay(fs *fileStore) error {
 			if err != nil && !errors.Is(err, errKeyAlreadyExists) {
 				return err
 			}
-			// the row id of the record is in use from here on. counting
-			// one id per record would fall behind the ids that refused
-			// inserts consumed before the crash.
-			if row.cellID > fs.lastKey {
-				fs.lastKey = row.cellID
-			}
-
 		case OpUpdate:
 			err = node.updateCell(row.cellID, row.val)
 			if err != nil {
